@@ -144,6 +144,7 @@ class Interp:
         self.external = external or default_external
         self.end = ">" if big_endian else "<"
         self.count_ops = count_ops
+        self.lenient_globals = True
         self.functions = {}
         self.variables = []
         self.externals = {}
@@ -264,6 +265,10 @@ class Interp:
                 p = reg.ptrs[i]
                 items.append(["ptr", p.region.kind, p.region.label if p.region.kind != "alloc" else "", p.off])
                 i += self.ptr_size
+                continue
+            if self.lenient_globals and what.startswith("global"):
+                items.append("??")   # padding / never written: shown, not fatal
+                i += 1
                 continue
             raise Undef("undefined byte in %s at offset %d" % (what, i))
         if run:
